@@ -56,6 +56,13 @@ SHAPED += [
     (1, 4, 2, 2, 1, 2, [[(0, 0), (0, 1)], [(0, 2), (0, 3)]]),       # move into a block at max_block_size
     (2, 2, 2, 2, 2, 2, [[(0, 0), (0, 1)], [(1, 0), (1, 1)]]),       # everything tight on a 2x2 board
 ]
+# bounds no partition can meet (or that the random walk cannot reach): initial() may give up by raising, it must not return
+STUCK = [
+    (2, 2, None, None, 3, 3),
+    (1, 3, None, None, 2, 2),
+    (2, 3, 2, 2, 2, 2),
+    (2, 2, 3, 3, 2, 4),
+]
 SCRIPTS = [[0, 1, 2, 3, 4, 5, 6, 7], [3, 1, 4, 1, 5, 9, 2, 6], [7, 0, 5, 2, 8, 1, 6, 3]]
 
 
@@ -123,7 +130,13 @@ def _job(args) -> Tuple[str, Optional[str], int]:
         b = cw.new("SegmentationBuilder2D", h, w, min_num_blocks=mnb, max_num_blocks=mxb, min_block_size=mns, max_block_size=mxs,
                    initial_blocks=copy.deepcopy(init_blocks))
         cw.ev.steps = 0
-        init = cw.method(b, "initial")()
+        try:
+            init = cw.method(b, "initial")()
+        except Raised as ex:
+            if "choice from empty" in ex.what and len(cfg) == 6 and cfg in STUCK:
+                # bounds that cannot be met: giving up with an exception is fine, returning a partition that breaks them is not
+                return "ok", None, n
+            raise
         msg = validity(init, cfg)
         if msg:
             return "bad", f"config {cfg}: initial() returns {init}: {msg}", n
@@ -172,7 +185,7 @@ def _job(args) -> Tuple[str, Optional[str], int]:
 def evaluation(repo: Repo, rep: Report) -> None:
     rep.rule("SEG-E", "every value reachable from initial() through proposed updates is a partition into connected blocks within all bounds; updates never mutate their input")
     rep.saw(SEG)
-    jobs = [(repo.root, repo.overrides, cfg, sc) for cfg in CONFIGS for sc in SCRIPTS] + [(repo.root, repo.overrides, cfg, sc) for cfg in SHAPED for sc in SCRIPTS]
+    jobs = [(repo.root, repo.overrides, cfg, sc) for cfg in CONFIGS + STUCK for sc in SCRIPTS] + [(repo.root, repo.overrides, cfg, sc) for cfg in SHAPED for sc in SCRIPTS]
     with ProcessPoolExecutor(max_workers=16) as ex:
         results = list(ex.map(_job, jobs))
     bad = [r for r in results if r[0] == "bad"]
